@@ -691,6 +691,10 @@ def check_dump(u, sp, hard, soft, res, d, stats, spec_f):
         if ante is None:
             viol.append({"prop": "C03", "what": "learnt clause #%d has no recorded antecedents" % L["id"]})
             continue
+        unknown = [a for a in ante if a not in byid]
+        if unknown:
+            viol.append({"prop": "C03", "what": "learnt clause #%d names antecedents %s that are not in the clause database" % (L["id"], unknown)})
+            break
         bad, _ = _check(stats, "learnt-why", [F(byid[a]) for a in ante if byid[a]["kind"] != "root"] + [z3.Not(F(L))])
         if bad:
             viol.append({"prop": "C03", "what": "learnt clause #%d %s is not implied by its recorded antecedents %s" % (L["id"], L["lits"], ante)})
